@@ -73,10 +73,17 @@ def node_stage(pid, tier, seed, known, cov, violations, known_hits):
                                           diverging_node_runs=len(r["divergences"])))
         violations.append((path, "no-failing-input-found"))
 
-def config_stage(pid, tier, seed, cov, violations):
+def config_stage(pid, tier, seed, cov, violations, known_hits=None):
     import config_family as cf
     tf = time.time()
     r = cf.run_config_family(tier, seed)
+    # known finding KF-D19: a blocking source with inter-arrival time 0 (a VALID configuration) in front of a path without
+    # any delay livelocks at t = 0; the validation model says "ok" (nothing is rejected), the run never gets past t = 0
+    d19 = [(c, real, model) for (c, real, model) in r["divergences"]
+           if real == "livelock" and model == "ok" and c["iat"] == "zero" and c["blk"] == "1" and c["pd"] == "zero" and c["bufDelay"] == "zero"]
+    if d19 and known_hits is not None:
+        known_hits["KF-D19"] = known_hits.get("KF-D19", 0) + len(d19)
+    r["divergences"] = [d for d in r["divergences"] if d not in d19]
     cov["families"]["config"] = dict(configurations=r["configs"], divergences=len(r["divergences"]), outcomes=r["outcomes"],
                                      wall_s=round(time.time() - tf, 2))
     cov["evaluations"] += r["configs"]; cov["distinct_nontrivial"] += r["configs"] - r["outcomes"].get("ok", 0)
@@ -211,7 +218,7 @@ def check_property(pid, tier, seed):
     if pid in NODE_PROPS:
         node_stage(pid, tier, seed, known, cov, violations, known_hits)
     if pid == "C20":
-        config_stage(pid, tier, seed, cov, violations)
+        config_stage(pid, tier, seed, cov, violations, known_hits)
     # ---- known findings / fixed findings: replay the recorded witnesses on the real code
     for k in known:
         if pid not in k["properties"]: continue
